@@ -329,6 +329,8 @@ class Inliner:
         self.report = report
         self.left = set()  # helper names with a call site that could not be inlined
         self.visible = set()
+        self.bases = {}
+        self.class_methods = {}
 
     # -- binding ------------------------------------------------------------------------------------
     def bind(self, h, call, recv):
@@ -494,8 +496,19 @@ class Inliner:
         if isinstance(f, ast.Name) and f.id in self.helpers and f.id in self.visible:
             return self.helpers[f.id], None
         if isinstance(f, ast.Attribute) and isinstance(f.value, ast.Name):
-            if f.value.id in ("self", "cls") and cls is not None and (cls, f.attr) in self.helpers:
-                return self.helpers[(cls, f.attr)], f.value
+            if f.value.id in ("self", "cls") and cls is not None:
+                # the method as the class sees it: its own definition, else the nearest base's
+                seen, todo = set(), [cls]
+                while todo:
+                    c = todo.pop(0)
+                    if c in seen:
+                        continue
+                    seen.add(c)
+                    if (c, f.attr) in self.helpers:
+                        return self.helpers[(c, f.attr)], f.value
+                    if f.attr in self.class_methods.get(c, ()):
+                        break  # defined (known) in this class: not a helper
+                    todo.extend(self.bases.get(c, ()))
             if (f.value.id, f.attr) in self.helpers and self.helpers[(f.value.id, f.attr)].static:
                 return self.helpers[(f.value.id, f.attr)], None
         return None, None
@@ -696,18 +709,19 @@ class Inliner:
         return new
 
 
-def references(trees, name):
-    """count of Name / Attribute references to `name` outside call-function position, and calls"""
+def references(trees, name, method=None):
+    """count of references to `name` outside call-function position, and calls.  method=True: attribute
+    references only (x.name); method=False: plain names only; None: both"""
     calls = other = 0
     for tree in trees:
         callfuncs = {id(n.func) for n in ast.walk(tree) if isinstance(n, ast.Call)}
         for n in ast.walk(tree):
-            if isinstance(n, ast.Name) and n.id == name and isinstance(n.ctx, ast.Load):
+            if isinstance(n, ast.Name) and n.id == name and isinstance(n.ctx, ast.Load) and method is not True:
                 if id(n) in callfuncs:
                     calls += 1
                 else:
                     other += 1
-            elif isinstance(n, ast.Attribute) and n.attr == name:
+            elif isinstance(n, ast.Attribute) and n.attr == name and method is not False:
                 if id(n) in callfuncs:
                     calls += 1
                 else:
@@ -733,7 +747,7 @@ def inline_unknown(trees_by_relpath, unknown, report):
             for q, node, cls in functions_of(tree):
                 if (rel, q) in unknown and node.name.startswith("_") and not (node.name.startswith("__") and node.name.endswith("__")):
                     h = Helper(rel, q, node, cls)
-                    calls, other = references(trees_by_relpath.values(), node.name)
+                    calls, other = references(trees_by_relpath.values(), node.name, method=cls is not None)
                     if other:
                         h.ok = False  # stored or passed as a value somewhere
                     key = node.name if cls is None else (cls, node.name)
@@ -742,6 +756,11 @@ def inline_unknown(trees_by_relpath, unknown, report):
         if not helpers:
             break
         inl = Inliner(helpers, report)
+        for tree in trees_by_relpath.values():
+            for st in ast.walk(tree):
+                if isinstance(st, ast.ClassDef):
+                    inl.bases[st.name] = [b.id for b in st.bases if isinstance(b, ast.Name)] + [b.value.id for b in st.bases if isinstance(b, ast.Subscript) and isinstance(b.value, ast.Name)]
+                    inl.class_methods[st.name] = {x.name for x in st.body if isinstance(x, (ast.FunctionDef, ast.AsyncFunctionDef))}
         progress = False
         for rel, tree in trees_by_relpath.items():
             # module functions are visible in their own module and wherever imported by name; methods in their class
@@ -764,7 +783,8 @@ def inline_unknown(trees_by_relpath, unknown, report):
                     if isinstance(st, (ast.FunctionDef, ast.AsyncFunctionDef)):
                         key = st.name
                         if any(h.node is st for h in helpers.values()):
-                            calls, other = references(trees_by_relpath.values(), st.name)
+                            is_m = any(h.node is st and h.cls is not None for h in helpers.values())
+                            calls, other = references(trees_by_relpath.values(), st.name, method=is_m)
                             own = sum(1 for n in ast.walk(st) if isinstance(n, ast.Call) and _callee_name(n) == st.name)
                             if calls - own == 0 and other == 0:
                                 report.append(("removed-helper", f"{rel}:{st.name}"))
